@@ -3,7 +3,12 @@
      M <functions> <calls>   function = style|arms|nest ("-" or i0/arms), joined by ';'
                              call = fn|varianthex:payload|varianthex:payload|direct 0/1, joined by ';' 
      Q <R|O> <ok payload> <sel> <links>        link = ctx:payload[:v]   (v: ? applied to a variable declared from the call)
-     T <checked 0/1> <ctx> <a> <b> <expr, prefix tokens separated by blanks>
+     T <checked 0/1> <ctx> <a> <b> <sa hex> <sb hex> <expr, prefix tokens separated by blanks>
+         (integer tokens A B L<n> D0 D1 I + - * / % DV MD AT; a string expression starts with an S token:
+          SL<hex> SA SB, SC x y (x + y), SK x y (cat(x, y)), SI i (names[i]), SN i (nm(i)))
+     R <type name hex> <init varianthex:payload> <steps> <arms>     step = how:fn:varianthex:payload, how = var|call|mkv|mk|fld
+     S <items> <calls>       items = A/Q/T lines with TAB written as 0x1d, joined by 0x1e;
+                             call = item:a:b:sahex:sbhex:sel, comma separated
      C <checked 0/1> <message hex>
    payload = N | I<decimal> | S<hex>; lists are comma separated, "-" = empty.
    Output for A/Q/T: three lines  M <exit> <events joined by 0x1f> / S ... / F <safe 0/1>;
@@ -79,7 +84,7 @@ let tctx_of = function
   | "ret" -> TRet | "decl" -> TDecl | "void" -> TVoid | "main" -> TMain
   | "asg" -> TAsg | "asgmain" -> TAsgMain | s -> failwith ("tctx " ^ s)
 
-let parse_expr (toks : string list) : cexpr =
+let parse_texpr (toks : string list) : texpr =
   let rest = ref toks in
   let next () = match !rest with t :: r -> rest := r; t | [] -> failwith "expr: eof" in
   let rec go () =
@@ -99,7 +104,20 @@ let parse_expr (toks : string list) : cexpr =
     | _ when String.length t > 1 && t.[0] = 'L' -> CLit (z_of_string (String.sub t 1 (String.length t - 1)))
     | _ -> failwith ("expr token " ^ t)
   in
-  go ()
+  let rec gs () =
+    let t = next () in
+    match t with
+    | "SA" -> SSA | "SB" -> SSB
+    | "SC" -> let x = gs () in let y = gs () in SCat (x, y)
+    | "SK" -> let x = gs () in let y = gs () in SCallCat (x, y)
+    | "SI" -> let i = go () in SIdx i
+    | "SN" -> let i = go () in SCallIdx i
+    | _ when String.length t >= 2 && String.sub t 0 2 = "SL" -> SLit (unhex (String.sub t 2 (String.length t - 2)))
+    | _ -> failwith ("string expr token " ^ t)
+  in
+  match toks with
+  | t :: _ when String.length t > 0 && t.[0] = 'S' -> TEStr (gs ())
+  | _ -> TEInt (go ())
 
 let bval_s = function VNo -> "" | VInt z -> " " ^ z_to_string z | VStr s -> " " ^ implode s
 let ev_s = function
@@ -140,27 +158,52 @@ let show tag (r : result) =
   print_string tag; print_char '\t'; print_string (exit_s r.r_exit); print_char '\t';
   print_endline (String.concat "\x1f" (List.map ev_s r.r_events))
 
+let parse_a = function
+  | [bi; vh; p; src; steps; fin; arms] ->
+      { a_builtin = builtin_of_name (unhex bi); a_val = cval_of vh p; a_src = src_of src;
+        a_steps = List.map step_of (list_field steps); a_final = final_of fin;
+        a_arms = List.map arm_of (list_field arms) }
+  | _ -> failwith "bad A line"
+let parse_q = function
+  | [k; okp; sel; links] ->
+      let lk s = match split ':' s with
+        | [c; p] -> { l_ctx = qctx_of c; l_err = payload_of p; l_opnd = OpCall }
+        | [c; p; "v"] -> { l_ctx = qctx_of c; l_err = payload_of p; l_opnd = OpVar }
+        | [c; p; _] -> { l_ctx = qctx_of c; l_err = payload_of p; l_opnd = OpCall }
+        | _ -> failwith ("bad link " ^ s) in
+      { q_kind = (if k = "R" then KResult else KOption); q_links = List.map lk (list_field links);
+        q_ok = payload_of okp; q_sel = nat_of_int (int_of_string sel) }
+  | _ -> failwith "bad Q line"
+let parse_t = function
+  | [ch; ctx; a; b; sa; sb; e] ->
+      { t_checked = (ch = "1"); t_ctx = tctx_of ctx; t_a = z_of_string a; t_b = z_of_string b;
+        t_sa = unhex sa; t_sb = unhex sb;
+        t_expr = parse_texpr (List.filter (fun s -> s <> "") (split ' ' e)) }
+  | _ -> failwith "bad T line"
+let cv s = match split ':' s with [v; p] -> cval_of v p | _ -> failwith ("bad cval " ^ s)
+let flag b = if b then "1" else "0"
+
+let sev_s = function
+  | ESCall n -> "call " ^ string_of_int (int_of_nat n)
+  | ESIn e -> ev_s e
+  | ESDone -> "done"
+let shows tag (r : sresult) =
+  print_string tag; print_char '\t'; print_string (exit_s r.sr_exit); print_char '\t';
+  print_endline (String.concat "\x1f" (List.map sev_s r.sr_events))
+
 let () =
   try
     while true do
       let l = input_line stdin in
       match split '\t' l with
-      | ["A"; bi; vh; p; src; steps; fin; arms] ->
-          let pa = { a_builtin = builtin_of_name (unhex bi); a_val = cval_of vh p; a_src = src_of src;
-                     a_steps = List.map step_of (list_field steps); a_final = final_of fin;
-                     a_arms = List.map arm_of (list_field arms) } in
+      | "A" :: rest ->
+          let pa = parse_a rest in
           show "M" (m_run_a pa); show "S" (s_run_a pa);
-          print_endline ("F\t" ^ (if safe_a pa then "1" else "0"))
-      | ["Q"; k; okp; sel; links] ->
-          let lk s = match split ':' s with
-            | [c; p] -> { l_ctx = qctx_of c; l_err = payload_of p; l_opnd = OpCall }
-            | [c; p; "v"] -> { l_ctx = qctx_of c; l_err = payload_of p; l_opnd = OpVar }
-            | [c; p; _] -> { l_ctx = qctx_of c; l_err = payload_of p; l_opnd = OpCall }
-            | _ -> failwith ("bad link " ^ s) in
-          let pq = { q_kind = (if k = "R" then KResult else KOption); q_links = List.map lk (list_field links);
-                     q_ok = payload_of okp; q_sel = nat_of_int (int_of_string sel) } in
+          print_endline ("F\t" ^ flag (safe_a pa))
+      | "Q" :: rest ->
+          let pq = parse_q rest in
           show "M" (m_run_q pq); show "S" (s_run_q pq);
-          print_endline ("F\t" ^ (if safe_q pq then "1" else "0"))
+          print_endline ("F\t" ^ flag (safe_q pq))
       | ["M"; fns; calls] ->
           let fn s = match split '|' s with
             | [st; arms; nest] ->
@@ -170,18 +213,41 @@ let () =
                    | _ -> failwith ("bad nest " ^ nest)) in
                 { f_style = mstyle_of st; f_arms = List.map arm_of (list_field arms); f_nest = n }
             | _ -> failwith ("bad fn " ^ s) in
-          let cv s = match split ':' s with [v; p] -> cval_of v p | _ -> failwith ("bad cval " ^ s) in
           let call s = match split '|' s with
             | [f; v1; v2; d] -> { k_fn = nat_of_int (int_of_string f); k_val = cv v1; k_val2 = cv v2; k_direct = (d = "1") }
             | _ -> failwith ("bad call " ^ s) in
           let pm = { pm_fns = List.map fn (semi_field fns); pm_calls = List.map call (semi_field calls) } in
           showm "M" (m_run_m pm); showm "S" (s_run_m pm);
-          print_endline ("F\t" ^ (if safe_m pm then "1" else "0"))
-      | ["T"; ch; ctx; a; b; e] ->
-          let pt = { t_checked = (ch = "1"); t_ctx = tctx_of ctx; t_a = z_of_string a; t_b = z_of_string b;
-                     t_expr = parse_expr (List.filter (fun s -> s <> "") (split ' ' e)) } in
+          print_endline ("F\t" ^ flag (safe_m pm))
+      | "T" :: rest ->
+          let pt = parse_t rest in
           show "M" (m_run_t pt); show "S" (s_run_t pt);
-          print_endline ("F\t" ^ (if safe_t pt then "1" else "0"))
+          print_endline ("F\t" ^ flag (safe_t pt))
+      | ["R"; bi; init; steps; arms] ->
+          let st s = match split ':' s with
+            | [how; fn; v; p] ->
+                { rs_val = cval_of v p; rs_fn = (fn = "1");
+                  rs_how = (match how with "var" -> RVar | "call" -> RCall | "mkv" -> RMkv | "mk" -> RMk | "fld" -> RFld | _ -> failwith ("how " ^ how)) }
+            | _ -> failwith ("bad rstep " ^ s) in
+          let pr = { pr_builtin = builtin_of_name (unhex bi); pr_init = cv init;
+                     pr_steps = List.map st (list_field steps); pr_arms = List.map arm_of (list_field arms) } in
+          showm "M" (m_run_r pr); showm "S" (s_run_r pr);
+          print_endline ("F\t" ^ flag (safe_r pr))
+      | ["S"; items; calls] ->
+          let item s = match split '\x1d' s with
+            | "A" :: rest -> IA (parse_a rest)
+            | "Q" :: rest -> IQ (parse_q rest)
+            | "T" :: rest -> IT (parse_t rest)
+            | _ -> failwith ("bad item " ^ s) in
+          let call s = match split ':' s with
+            | [j; a; b; sa; sb; sel] ->
+                { sc_item = nat_of_int (int_of_string j); sc_a = z_of_string a; sc_b = z_of_string b;
+                  sc_sa = unhex sa; sc_sb = unhex sb; sc_sel = nat_of_int (int_of_string sel) }
+            | _ -> failwith ("bad scall " ^ s) in
+          let ps = { ps_items = (if items = "-" || items = "" then [] else List.map item (split '\x1e' items));
+                     ps_calls = List.map call (list_field calls) } in
+          shows "M" (m_run_s ps); shows "S" (s_run_s ps);
+          print_endline ("F\t" ^ flag (safe_s ps))
       | ["C"; ch; mh] ->
           let sv = build_err (unhex mh) (ch = "1") in
           Printf.printf "%s|%d|%s|%s\n" (implode sv.s_variant) (if sv.s_has then 1 else 0)
